@@ -381,3 +381,9 @@ def unit_test(case):
         "lib = bibtexparser.parse_string(text, parse_stack=[])\n"
         "assert isinstance(bibtexparser.write_string(lib, unparse_stack=[]), str)\n"
     )
+
+
+def ENV_SHARDS(tier):
+    """The broad, cheap families: run again in a fresh interpreter per environment (engine.run_environments)."""
+    return [s for s in shards('quick') if s[0] in ("idents", "ext", "mini", "dev") or (s[0] == "fam" and s[2] <= 100)]
+
